@@ -676,6 +676,20 @@ def bounds(v, facts, depth=0, _simple_only=False, _fl=None):
             facts = tuple(f for f in facts if _simple_fact(f[0]))
         _fl = _fact_lins_cached(tuple(facts), _simple_only) if facts else ()
     fl = _fl
+    if depth == 0 and facts and any(isinstance(at, tuple) and at[:1] in (("min",), ("max",)) for at in v.t):
+        # an extreme decided by the facts at hand (it may have been formed earlier, under fewer facts)
+        for at, coef in list(v.t.items()):
+            if isinstance(at, tuple) and at[:1] in (("min",), ("max",)) and not any(isinstance(x, tuple) and x[:1] in (("min",), ("max",)) for a in at[1] for x in a.t):
+                keep = list(at[1])
+                for i, a in enumerate(at[1]):
+                    others = [b for j, b in enumerate(at[1]) if j != i]
+                    if all((lambda lo_: lo_ is not None and lo_ >= 0)(bounds((b - a) if at[0] == "min" else (a - b), facts, 1, _fl=fl)[0]) for b in others):
+                        keep = [a]
+                        break
+                if len(keep) == 1:
+                    v = v - Lin({at: coef}) + keep[0].scale(coef)
+        if v.is_const():
+            return v.c, v.c
     lo = hi = None
     # direct: v = g + c  for a fact g >= 0   /   v = -g + c
     for g in fl:
@@ -685,6 +699,20 @@ def bounds(v, facts, depth=0, _simple_only=False, _fl=None):
         d = v + g
         if d.is_const():
             hi = d.c if hi is None else min(hi, d.c)
+    # two facts chained (transitivity):  v = g1 + g2 + c
+    if depth <= 1 and len(fl) <= 60:
+        vat = set(v.t)
+        rel = [g for g in fl if vat & set(g.t)]
+        for i, g1 in enumerate(rel):
+            for g2 in fl:
+                if g2 is g1:
+                    continue
+                d = v - g1 - g2
+                if d.is_const():
+                    lo = d.c if lo is None else max(lo, d.c)
+                d = v + g1 + g2
+                if d.is_const():
+                    hi = d.c if hi is None else min(hi, d.c)
     # term by term
     tlo, thi = v.c, v.c
     for at, coef in v.t.items():
